@@ -214,6 +214,9 @@ def class_test(items, c):
     return b_and(notend, r)
 
 
+_TREES = {}
+
+
 class SreMatcher:
     """Computes, for pattern and start position, the priority-ordered list of
     (guard, end, groups) alternatives following Python's backtracking order."""
@@ -222,9 +225,10 @@ class SreMatcher:
         if isinstance(pattern, str):
             pattern = re.compile(pattern)
         self.flags = pattern.flags
-        self.tree = sre_parse.parse(pattern.pattern, pattern.flags & ~re.UNICODE if False else 0)
-        # re-parse with flags embedded
-        self.tree = sre_parse.parse(pattern.pattern, pattern.flags & (re.M | re.S | re.I | re.X))
+        key = (pattern.pattern, pattern.flags)
+        if key not in _TREES:
+            _TREES[key] = sre_parse.parse(pattern.pattern, pattern.flags & (re.M | re.S | re.I | re.X))
+        self.tree = _TREES[key]
         if self.flags & re.I:
             raise NotImplementedError('IGNORECASE')
         self.text = text
@@ -346,6 +350,69 @@ class SreMatcher:
         res = res_more + stop if greedy else stop + res_more
         self.memo[key] = res
         return res
+
+    # ---- lazy (generator) enumeration in the same priority order: used when the caller decides the guards one by
+    # ---- one and stops at the first one decided true (exactly what a backtracking matcher does); avoids building
+    # ---- the exponentially many alternatives of patterns like ([^x].*)* on mostly concrete text
+    def iseq(self, items, idx, p, groups):
+        if idx == len(items):
+            yield (True, p, groups)
+            return
+        for g1, e1, gr1 in self.ione(items[idx], p, groups):
+            if g1 is False:
+                continue
+            for g2, e2, gr2 in self.iseq(items, idx + 1, e1, gr1):
+                g = b_and(g1, g2)
+                if g is False:
+                    continue
+                yield (g, e2, gr2)
+
+    def ione(self, item, p, groups):
+        op, av = item
+        if op is sre_c.BRANCH:
+            for alt in av[1]:
+                for r in self.iseq(alt, 0, p, groups):
+                    yield r
+            return
+        if op is sre_c.SUBPATTERN:
+            gid, add_flags, del_flags, sub = av
+            for g, e, gr in self.iseq(sub, 0, p, groups):
+                if gid is not None:
+                    gr = tuple(x for x in gr if x[0] != gid) + ((gid, p, e),)
+                yield (g, e, gr)
+            return
+        if op in (sre_c.MAX_REPEAT, sre_c.MIN_REPEAT):
+            lo, hi, sub = av
+            for r in self.irep(sub, lo, hi, op is sre_c.MAX_REPEAT, 0, p, groups):
+                yield r
+            return
+        for r in self.one(item, p, groups):
+            yield r
+
+    def irep(self, sub, lo, hi, greedy, k, p, groups):
+        stop = [(True, p, groups)] if k >= lo else []
+        if not greedy:
+            for r in stop:
+                yield r
+        if (hi is sre_c.MAXREPEAT or k < hi) and p <= self.text.L:
+            for g1, e1, gr1 in self.iseq(sub, 0, p, groups):
+                if e1 == p and k >= lo:
+                    continue
+                for g2, e2, gr2 in self.irep(sub, lo, hi, greedy, k + 1, e1, gr1):
+                    g = b_and(g1, g2)
+                    if g is not False:
+                        yield (g, e2, gr2)
+        if greedy:
+            for r in stop:
+                yield r
+
+    def iter_alternatives(self, p, limit=20000):
+        n = 0
+        for r in self.iseq(list(self.tree), 0, p, ()):
+            n += 1
+            if n > limit:
+                raise RuntimeError('regex alternative explosion')
+            yield r
 
     def match_at(self, p):
         """Return mutually-exclusive [(guard, end, groups)] — the match Python
